@@ -6,15 +6,16 @@ Local Open Scope string_scope.
 Local Open Scope list_scope.
 
 (* Search order: the candidates are the includer's directory (quote form only)
-   followed by the configured directories in order; the result is the first
+   followed by the configured directories in order, each joined with the
+   spelling and normalised lexically (".", ".." and empty components); the result is the first
    candidate that exists; the angle form never consults the includer's directory. *)
 Theorem C04_search_order :
   forall (fs : fsys) (ds : list path) (name this : path),
     (forall k p, search fs ds k = Some p ->
        exists l1 l2, candidates ds k = l1 ++ p :: l2 /\ isfile fs p = true /\ forall y, In y l1 -> isfile fs y = false) /\
     (forall k, search fs ds k = None -> forall y, In y (candidates ds k) -> isfile fs y = false) /\
-    candidates ds (name, this, false) = (this ++ name) :: map (fun d => d ++ name) ds /\
-    candidates ds (name, this, true) = map (fun d => d ++ name) ds.
+    candidates ds (name, this, false) = norm (this ++ name) :: map (fun d => norm (d ++ name)) ds /\
+    candidates ds (name, this, true) = map (fun d => norm (d ++ name)) ds.
 Proof.
   intros fs ds name this. split; [intros k p; apply search_first|].
   split; [intros k; apply search_none|]. split; reflexivity.
